@@ -35,6 +35,7 @@ import (
 	"fmt"
 	"io"
 	"path/filepath"
+	"reflect"
 	"regexp"
 	"strings"
 
@@ -88,9 +89,45 @@ func faultEngine(cfg engineCfg) *liquid.Engine {
 
 // ---- writers --------------------------------------------------------------------------------
 
+// The error a failing writer returns is the caller's: a pointer (errors.New, *os.PathError), but just as well a value of a
+// slice or struct type that Go can neither hash nor compare (go/scanner.ErrorList, a validation error list). The renderer
+// must hand it on without looking inside: a `==` against a sentinel is safe (different dynamic types are unequal), a
+// map lookup keyed by the error or a `==` between two such values panics.
 type faultErr struct{ k int }
 
 func (e *faultErr) Error() string { return fmt.Sprintf("injected failure of Write call %d", e.k) }
+func (e *faultErr) faultK() int   { return e.k }
+
+type faultErrList []*faultErr // unhashable, uncomparable
+
+func (e faultErrList) Error() string { return "list: " + e[0].Error() }
+func (e faultErrList) faultK() int   { return e[0].k }
+
+type faultErrStruct struct { // a struct holding a slice: unhashable, uncomparable
+	k    int
+	more []string
+}
+
+func (e faultErrStruct) Error() string {
+	return fmt.Sprintf("injected failure (struct) of Write call %d", e.k)
+}
+func (e faultErrStruct) faultK() int { return e.k }
+
+type faultIdent interface {
+	error
+	faultK() int
+}
+
+// newFaultErr: the error of the writer that fails at call k; the dynamic type rotates with k
+func newFaultErr(k int) faultIdent {
+	switch k % 3 {
+	case 1:
+		return faultErrList{&faultErr{k}}
+	case 2:
+		return faultErrStruct{k, []string{"x"}}
+	}
+	return &faultErr{k}
+}
 
 type faultPlan struct {
 	k     int  // index of the first failing Write call
@@ -119,7 +156,7 @@ func (p faultPlan) String() string {
 
 type faultyWriter struct {
 	plan     faultPlan
-	err      *faultErr
+	err      faultIdent
 	ncalls   int
 	failed   bool   // call k was reached
 	accepted []byte // bytes accepted up to and including the failing call
@@ -163,10 +200,14 @@ func (w *faultyWriter) Write(p []byte) (int, error) {
 }
 
 // causeIsWriterError: Cause() is, or wraps, the error the writer returned.
-func causeIsWriterError(se liquid.SourceError, fe *faultErr) bool {
+func causeIsWriterError(se liquid.SourceError, fe faultIdent) bool {
 	var c error = se.Cause()
 	for depth := 0; c != nil && depth < 20; depth++ {
-		if c == error(fe) || errors.Is(c, fe) {
+		// never `c == fe`: comparing two values of an uncomparable dynamic type panics
+		if fi, ok := c.(faultIdent); ok && fi.faultK() == fe.faultK() && reflect.TypeOf(c) == reflect.TypeOf(fe) {
+			return true
+		}
+		if errors.Is(c, fe) { // errors.Is checks comparability itself
 			return true
 		}
 		cc, ok := c.(interface{ Cause() error })
@@ -255,7 +296,7 @@ func (fc faultCase) explore(r *Run, cl string, en faultEntry, base string, calls
 			plans = plans[:1] // the writer is never asked to fail: the run must repeat the fault-free one
 		}
 		for _, plan := range plans {
-			fw := &faultyWriter{plan: plan, err: &faultErr{k}}
+			fw := &faultyWriter{plan: plan, err: newFaultErr(k)}
 			var se liquid.SourceError
 			res, pmsg := protect(func() string {
 				se, _ = en.run(fw)
